@@ -16,3 +16,28 @@ Theorem C08_intact_folder_exact : forall f hist off len,
   fst (extract f (after f None hist) off len) = (true, slice (plain f) off len).
 Proof. exact intact_folder_exact. Qed.
 Print Assumptions C08_intact_folder_exact.
+
+(* ---- the real MSZIP port (Model/Mszip.v zcall = mszipd_decompress): a request can be split anywhere ---- *)
+From MSP Require Import Base.Src Model.Mszip Proofs.MszipResume.
+(* for every end-of-input rule, hint, input, stream state and split a + b: if the first a bytes are delivered with OK, then the
+   combined request and the second request have the same result and leave the same input / output behind.  [nofuel] excludes the
+   model's own loop-counter status 99, which is not a behaviour of the C code. *)
+Theorem C08_mszip_decoder_resumable : forall rule hint a b z i z1 i1 rc ic r2 i2, zo z <= zend z ->
+  ideal rule hint (zcall a z) i = (SVal (OK, false, z1), i1) ->
+  ideal rule hint (zcall (a + b) z) i = (rc, ic) -> nofuel rc ->
+  ideal rule hint (zcall b z1) i1 = (r2, i2) -> nofuel r2 ->
+  rc = r2 /\ ic = i2.
+Proof. exact zcall_resumable. Qed.
+Print Assumptions C08_mszip_decoder_resumable.
+
+(* the premises are met by real runs: 2 bytes, then 3 more, of a stored deflate block holding "hello" *)
+Definition c08_sample : list N := [67; 75; 1; 5; 0; 250; 255; 104; 101; 108; 108; 111].
+Example C08_mszip_sample :
+  match ideal EofPad2 0 (zcall 2 zinit) {| irest := c08_sample ++ pad EofPad2; iout := [] |} with
+  | (SVal (e, fl, z1), i1) =>
+      e = OK /\ fl = false /\ rev (iout i1) = [104; 101] /\
+      match ideal EofPad2 0 (zcall 3 z1) i1 with
+      | (SVal (e2, _, _), i2) => e2 = OK /\ rev (iout i2) = [104; 101; 108; 108; 111]
+      | _ => False end
+  | _ => False end.
+Proof. vm_compute. repeat split. Qed.
